@@ -2213,7 +2213,7 @@ class Interp:
                 if isinstance(how, str):
                     self.st.seeded = seed_then(self.st.seeded, how)
                     self.st.hard = seed_then(self.st.hard, how)
-                self.use_rng(label, (w0,) + tuple(w))
+                self.use_rng(g.qual, (w0,) + tuple(w))
                 self.st.seeded, self.st.hard = saved
         eh = summ.exit_hard
         if isinstance(eh, str):
@@ -2588,13 +2588,19 @@ class Interp:
 
     def _codec_safe(self, node):
         """x.encode(c, errors='replace'|'ignore') never raises; neither does decoding its result with the same codec"""
+        LEN = ('replace', 'ignore', 'xmlcharrefreplace', 'backslashreplace', 'surrogateescape')
+
+        def errors_lenient(c):
+            # errors= keyword, or the second positional argument of str.encode / bytes.decode
+            for k in c.keywords:
+                if k.arg == 'errors':
+                    return isinstance(k.value, ast.Constant) and k.value.value in LEN
+            return len(c.args) >= 2 and isinstance(c.args[1], ast.Constant) and c.args[1].value in LEN
+
         def lenient(c):
-            return isinstance(c, ast.Call) and isinstance(c.func, ast.Attribute) and c.func.attr == 'encode' and any(
-                k.arg == 'errors' and isinstance(k.value, ast.Constant) and k.value.value in ('replace', 'ignore',
-                                                                                             'xmlcharrefreplace', 'backslashreplace')
-                for k in c.keywords)
-        if lenient(node):
-            return True
+            return isinstance(c, ast.Call) and isinstance(c.func, ast.Attribute) and c.func.attr == 'encode' and errors_lenient(c)
+        if isinstance(node.func, ast.Attribute) and node.func.attr in ('encode', 'decode') and errors_lenient(node):
+            return True          # strict (the default) raises; a lenient error handler cannot
         f = node.func
         if isinstance(f, ast.Attribute) and f.attr == 'decode' and lenient(f.value):
             return ast.dump(f.value.args[0]) == ast.dump(node.args[0]) if (f.value.args and node.args) else False
